@@ -406,12 +406,12 @@ func (t *TriDense) Copy(a Matrix) (r, c int) {
 	case RawMatrixer:
 		amat := a.RawMatrix()
 		if t.isUpper() {
-			for i := 0; i < r; i++ {
+			for i := 0; i < min(r, c); i++ {
 				copy(t.mat.Data[i*t.mat.Stride+i:i*t.mat.Stride+c], amat.Data[i*amat.Stride+i:i*amat.Stride+c])
 			}
 		} else {
 			for i := 0; i < r; i++ {
-				copy(t.mat.Data[i*t.mat.Stride:i*t.mat.Stride+i+1], amat.Data[i*amat.Stride:i*amat.Stride+i+1])
+				copy(t.mat.Data[i*t.mat.Stride:i*t.mat.Stride+min(i+1, c)], amat.Data[i*amat.Stride:i*amat.Stride+min(i+1, c)])
 			}
 		}
 	case RawTriangular:
@@ -440,7 +440,7 @@ func (t *TriDense) Copy(a Matrix) (r, c int) {
 					t.set(i, j, a.At(i, j))
 				}
 			} else {
-				for j := 0; j <= i; j++ {
+				for j := 0; j < min(i+1, c); j++ {
 					t.set(i, j, a.At(i, j))
 				}
 			}
